@@ -6,7 +6,13 @@ here="$(cd "$(dirname "$0")" && pwd)"
 id="$1"; tier="${2:-${VERIF_TIER:-quick}}"
 cd "$here/dsim" || exit 2
 if ! CARGO_NET_OFFLINE=true cargo build --release --offline >build.log 2>&1; then
-  echo "harness error: building dsim against /repo failed:"; tail -40 build.log; exit 2
+  # the default build embeds CPython to run the crate's real Python binding; where that part
+  # cannot be built (no libpython3.11, no pyo3 in the cargo cache) the checks run without it
+  echo "note: build with the Python binding failed, building without it (see dsim/build.log)" >&2
+  cp build.log build-pybinding.log
+  if ! CARGO_NET_OFFLINE=true cargo build --release --offline --no-default-features >build.log 2>&1; then
+    echo "harness error: building dsim against /repo failed:"; tail -40 build.log; exit 2
+  fi
 fi
 cd "$here" || exit 2
 exec "$here/dsim/target/release/dsim" check "$id" --tier "$tier" --verif-dir "$here"
